@@ -77,6 +77,11 @@ func (C16) Generate(rng *rand.Rand, tier string, runIdx uint64) simkit.Plan {
 	p.Cfg.Extra["stagger_seed"] = fmt.Sprint(rng.Uint32())
 	p.Cfg.Extra["interval"] = simkit.Pick(rng, []string{"30s", "1m", "2m"})
 	faulty := simkit.Chance(rng, 65)
+	if simkit.Chance(rng, 50) {
+		// output-only check updates are written back after a delay (CheckUpdateInterval; one nanosecond here, which
+		// makes the library's random stagger zero): the window closes at the next advance of the clock
+		p.Cfg.Extra["defer"] = "on"
+	}
 	status := func() string { return simkit.Pick(rng, []string{"passing", "warning", "critical"}) }
 	svcStep := func(op string) Step {
 		id := simkit.Pick(rng, agServices)
@@ -98,7 +103,16 @@ func (C16) Generate(rng *rand.Rand, tier string, runIdx uint64) simkit.Plan {
 	}
 	n := 8 + rng.IntN(40)
 	for len(p.Steps) < n {
-		switch simkit.Weighted(rng, []int{18, 8, 8, 5, 12, 16, 12, 10, 4, 4, 3}) {
+		switch simkit.Weighted(rng, []int{18, 8, 8, 5, 12, 16, 12, 10, 4, 4, 3, 4}) {
+		case 11:
+			// a check in sync, then several output-only updates inside one deferral window
+			c, st := simkit.Pick(rng, agChecks), status()
+			p.Steps = append(p.Steps, Step{Op: "ag.add-check", CheckID: c, SvcID: agCheckService(c), Val: st, Text: ""},
+				Step{Op: "sync.trigger-full"}, Step{Op: "advance", Dur: "1s"})
+			for i, k := 0, 1+rng.IntN(3); i < k; i++ {
+				p.Steps = append(p.Steps, Step{Op: "ag.update-check", CheckID: c, Val: st, Text: fmt.Sprintf("out%d", i+1)})
+			}
+			p.Steps = append(p.Steps, Step{Op: "advance", Dur: simkit.Pick(rng, []string{"1s", "45s"})})
 		case 0:
 			p.Steps = append(p.Steps, svcStep("ag.add-service"))
 		case 1:
@@ -443,7 +457,21 @@ func (w *agWorld) midLocalChange(n int) {
 	for ; n > 0 && w.pc+1 < len(w.steps) && strings.HasPrefix(w.steps[w.pc+1].Op, "ag."); n-- {
 		w.pc++
 		w.event("local change during the fetch: %s", w.steps[w.pc].Short())
+		bs, bc, _ := local.VerifDump(w.L)
 		w.localOp(w.steps[w.pc])
+		// flags the local operation itself set (re-registering an identical definition keeps "in sync") are not
+		// flags this sync set
+		as, ac, _ := local.VerifDump(w.L)
+		for id, e := range as {
+			if b, ok := bs[id]; !ok || b.InSync != e.InSync || b.Deleted != e.Deleted {
+				w.preSvc[id] = e
+			}
+		}
+		for id, e := range ac {
+			if b, ok := bc[id]; !ok || b.InSync != e.InSync || b.Deleted != e.Deleted {
+				w.preChk[id] = e
+			}
+		}
 		w.midChange = true
 		w.r.Hit("fault.local-change-during-fetch")
 	}
@@ -611,7 +639,14 @@ func (w *agWorld) judge(kind string, err error) *simkit.Violation {
 		if c == nil {
 			return mk("insync-lie", "in-sync-entry-is-in-the-catalog", "check", fmt.Sprintf("check %s is marked in sync but the catalog does not hold it", id))
 		}
-		if d := sameCheck(e.Check, c); d != "" {
+		lc := e.Check
+		if e.Deferred {
+			// an output-only update waits for its delayed write-back: until then the output is not content
+			cp := *lc
+			cp.Output = c.Output
+			lc = &cp
+		}
+		if d := sameCheck(lc, c); d != "" {
 			return mk("insync-lie", "in-sync-entry-is-in-the-catalog", "check", fmt.Sprintf("check %s is marked in sync but differs from the catalog: %s", id, d))
 		}
 	}
@@ -783,8 +818,12 @@ func (C16) execute(p *Plan, r *simkit.Run) *simkit.Violation {
 	w.C = NewCluster(r, parseDur(p.Cfg.GCTTL, 15*time.Minute), parseDur(p.Cfg.GCGran, 30*time.Second))
 	defer w.C.Close()
 	logger := hclog.New(&hclog.LoggerOptions{Level: hclog.Off})
-	w.L = local.NewState(local.Config{AdvertiseAddr: "10.1.0.1", Datacenter: "dc1", NodeID: agNodeID, NodeName: agNode,
-		TaggedAddresses: map[string]string{"lan": "10.1.0.1"}}, logger, new(token.Store))
+	lcfg := local.Config{AdvertiseAddr: "10.1.0.1", Datacenter: "dc1", NodeID: agNodeID, NodeName: agNode,
+		TaggedAddresses: map[string]string{"lan": "10.1.0.1"}}
+	if p.Cfg.Extra["defer"] == "on" {
+		lcfg.CheckUpdateInterval = time.Nanosecond
+	}
+	w.L = local.NewState(lcfg, logger, new(token.Store))
 	w.L.Delegate = agDelegate{w}
 	interval := parseDur(p.Cfg.Extra["interval"], time.Minute)
 	shutdown := make(chan struct{})
